@@ -24,12 +24,10 @@ theorem C17_copy_obsEq (cfg : Cfg) (beh : Beh) (w : World) (k i src : Nat) (sc :
     apiObs cfg sc = apiObs cfg sc ∧ save cfg sc = save cfg sc := by
   simp [stepAll, hi, hs]
 
-/-- **thereafter the copy responds to the same inputs like the original, independently of it**: a
-    step is a function of (configuration, behaviour, environment, core) only — two equal cores driven
-    by the same step give equal cores and equal events; and a step on one instance leaves every other
-    instance of the world untouched -/
-theorem C17_copy_bisim (f : Step) (c : Core) : f { core := c } = f { core := c } := rfl
-
+/-- *thereafter the copy responds to the same inputs like the original, independently of it*: proved over whole
+    call sequences as `C17_history_copy_responds_alike` (Props/History.lean, on `Lemmas/Relabel.lean`: every
+    building block run as another instance on the same core gives the same core and the same trace up to the
+    instance label); independence of instances: `C17_independent` below and `C17_history_independent`. -/
 theorem C17_independent (cfg : Cfg) (w : World) (i j k : Nat) (name : String) (c : Core) (f : Step) (h : i ≠ j) :
     (onCore cfg w i k name c f).1.get j = w.get j := by
   unfold onCore
